@@ -85,6 +85,49 @@ def build(form, p, w, tm):
     raise KeyError(form)
 
 
+ARRAY_FORMS = ("arr6", "col6", "arr3", "arr7", "mat4", "rpy6arr", "rpy6col", "rpy3arr")
+
+
+def array_arg(form, p, w):
+    """-> (fresh float64 array the caller would hand over, rpy flag) for the array-taking constructor forms."""
+    from scipy.spatial.transform import Rotation as Rsc
+    if form == "arr6":
+        return np.concatenate([p, w]).astype(float), False
+    if form == "col6":
+        return np.concatenate([p, w]).astype(float).reshape(6, 1), False
+    if form == "arr3":
+        return np.array(w, float), False
+    if form == "arr7":
+        return np.array(list(p) + list(Rsc.from_rotvec(w).as_quat()), float), False
+    if form == "mat4":
+        return se3.T_from(w, p), False
+    import warnings
+    with warnings.catch_warnings():
+        warnings.simplefilter("ignore")
+        a, b, c = Rsc.from_matrix(se3.rexp(w)).as_euler("XYZ")
+    if form == "rpy3arr":
+        return np.array([a, b, c], float), True
+    if form == "rpy6arr":
+        return np.array(list(p) + [a, b, c], float), True
+    if form == "rpy6col":
+        return np.array(list(p) + [a, b, c], float).reshape(6, 1), True
+    raise KeyError(form)
+
+
+def caller_array_history(form, pos, w, E, tm):
+    """The array handed to a constructor stays the caller's.  -> (error of a SECOND transform built from the same array
+    object, error of the first transform after the caller refilled the array)."""
+    buf, flag = array_arg(form, pos, w)
+    first = tm(buf, True) if flag else tm(buf)
+    second = tm(buf, True) if flag else tm(buf)
+
+    def err(t):
+        return max(float(np.abs(t.gTM() - E).max()), float(np.abs(se3.T_from_taa(t.gTAA().reshape(6)) - E).max()))
+    e_second = err(second)
+    buf[...] = buf * 0.5 + 0.37
+    return e_second, max(err(first), err(second))
+
+
 def work_forms(p):
     from basic_robotics.general import tm
     P = poses(p["seed"])
@@ -111,17 +154,14 @@ def work_forms(p):
             e2 = float(np.abs(se3.T_from_taa(t.gTAA().reshape(6)) - E).max()) / s
             if not (e2 <= TOL):
                 acc.violation("ctor_form", dict(case, via="gTAA"), e2, TOL, q)
-            # the array handed to the constructor stays the caller's: refilling it must not move the transform
-            if form in ("arr6", "col6", "arr3", "arr7", "mat4", "rpy6arr", "rpy6col", "rpy3arr"):
-                src = {"arr6": lambda: np.concatenate([pos, w]), "col6": lambda: np.concatenate([pos, w]).reshape(6, 1),
-                       "arr3": lambda: np.array(w), "mat4": lambda: se3.T_from(w, pos)}.get(form)
-                if src is not None:
-                    buf = src()
-                    tb = tm(buf)
-                    buf[...] = buf * 0.5 + 0.37
-                    e4 = max(float(np.abs(tb.gTM() - E).max()), float(np.abs(se3.T_from_taa(tb.gTAA().reshape(6)) - E).max())) / s
-                    if not (e4 <= TOL):
-                        acc.violation("ctor_form", dict(case, via="caller refilled its array"), e4, TOL, q)
+            # the array handed to the constructor stays the caller's: a second transform built from the same array object is
+            # the same pose, and refilling the array afterwards moves neither
+            if form in ARRAY_FORMS:
+                e_second, e4 = caller_array_history(form, pos, w, E, tm)
+                if not (e_second / s <= TOL):
+                    acc.violation("ctor_form", dict(case, via="second construction from the same array"), e_second / s, TOL, q)
+                if not (e4 / s <= TOL):
+                    acc.violation("ctor_form", dict(case, via="caller refilled its array"), e4 / s, TOL, q)
             # reading then setting the quaternion is the identity
             t2 = t.copy()
             t2.setQuat(t2.getQuat())
@@ -315,15 +355,10 @@ def replay(rec):
         try:
             t, E = build(c["form"], P[0][0], P[0][1], tm)
             s = max(1.0, float(np.abs(P[0][0]).max()))
-            if c.get("via") == "caller refilled its array":
-                pos, w = P[0]
-                src = {"arr6": lambda: np.concatenate([pos, w]), "col6": lambda: np.concatenate([pos, w]).reshape(6, 1),
-                       "arr3": lambda: np.array(w), "mat4": lambda: se3.T_from(w, pos)}[c["form"]]
-                buf = src()
-                tb = tm(buf)
-                buf[...] = buf * 0.5 + 0.37
-                e4 = max(float(np.abs(tb.gTM() - E).max()), float(np.abs(se3.T_from_taa(tb.gTAA().reshape(6)) - E).max())) / s
-                return [{"clause": "ctor_form", "observed": e4}] if not (e4 <= TOL) else []
+            if c.get("via") in ("caller refilled its array", "second construction from the same array"):
+                e_second, e4 = caller_array_history(c["form"], P[0][0], P[0][1], E, tm)
+                e = e4 if c["via"] == "caller refilled its array" else e_second
+                return [{"clause": "ctor_form", "observed": e / s}] if not (e / s <= TOL) else []
             if not (np.abs(t.gTM() - E).max() / s <= TOL and np.abs(se3.T_from_taa(t.gTAA().reshape(6)) - E).max() / s <= TOL):
                 acc.violation("ctor_form", c)
             t2 = t.copy()
